@@ -111,6 +111,7 @@ package transport
 //gvc:  theory int
 //gvc:  opt coarse
 //gvc:  opt frame args
+//gvc:  opt callees abstract
 //gvc:  sink PeekLine requires room: arg0.#bufsize >= 65520
 //gvc:end
 
@@ -119,6 +120,7 @@ package transport
 //gvc:  theory int
 //gvc:  opt coarse
 //gvc:  opt frame args
+//gvc:  opt callees abstract
 //gvc:  sink PeekLine requires room: arg0.#bufsize >= 65520
 //gvc:end
 
@@ -128,5 +130,6 @@ package transport
 //gvc:  theory int
 //gvc:  opt coarse
 //gvc:  opt frame args
+//gvc:  opt callees abstract
 //gvc:  sink DiscoverVersion requires room: arg0.#bufsize >= 65520
 //gvc:end
